@@ -496,7 +496,7 @@ def py_components(s):
 
 
 def gen_runner(r, force_serial=None):
-    tt = r.choice([1, 2, 2, 3, 4])
+    tt = r.choice([2, 2, 3, 3, 4])
     # CaptureStrategy::Combined is not used: in a debug build the real runner aborts on it with
     # "IO Safety violation: owned file descriptor already closed" (test_command/unix.rs hands one
     # fd to three owners) -- outside C08/C14, reported in docs/notes/C08.md
@@ -530,7 +530,7 @@ def gen_runner(r, force_serial=None):
     sc = dict(op="runner", test_threads=tt, capture=capture, retries=retries, groups=groups, binaries=binaries,
               tag="runner")
     if r.random() < 0.2:
-        sc["cli_test_threads"] = r.choice([1, 2, 3])
+        sc["cli_test_threads"] = r.choice([2, 3])
     return sc
 
 
